@@ -176,16 +176,16 @@ class ReedMullerDecoder(BaseBlockDecoder[ReedMullerCodeEncoder]):
 
         # Process blockwise
         def decode_block(r_block):
-            batch_size = r_block.shape[0]
+            # r_block has shape [..., blocks, code_length]: decode every block of every row
+            # (taking only block 0 of each row would silently drop the others)
+            words = r_block.reshape(-1, self.code_length)
+            batch_size = words.shape[0]
             decoded = torch.zeros(batch_size, self.code_dimension, dtype=torch.int, device=received.device)
-            errors = torch.zeros_like(r_block) if return_errors else None
+            errors = torch.zeros_like(words) if return_errors else None
 
             for i in range(batch_size):
-                # Get the current received word - ensure it's a 1D tensor
-                if r_block.dim() == 3:  # Handle the case when r_block has shape [batch, 1, code_length]
-                    r = r_block[i, 0, :]
-                else:  # Handle the case when r_block has shape [batch, code_length]
-                    r = r_block[i, :]
+                # Get the current received word as a 1D tensor
+                r = words[i, :]
 
                 # Hard decisions on which the check-sums are computed
                 if self.input_type == "hard":
